@@ -241,3 +241,6 @@ void use_named_props(OVM::TopologyKernel &m, const OVM::TopologyKernel &cm) {
   m.clear_mesh_props();
 }
 template void use_named_props<int>(OVM::TopologyKernel &, const OVM::TopologyKernel &);
+
+// all members of the generic circulator wrapper, incl. the arithmetic operators nothing in the library calls (rule C05.arith)
+template class OpenVolumeMesh::GenericCirculator<OpenVolumeMesh::detail::VertexEdgeIterImpl>;
